@@ -174,7 +174,7 @@ static void check_c07(const Song &s, const Cfg &c, en::CaseOut &o) {
     I.tap.log.clear();
     play_song(I, c, o, length / c.mult + 5.0);
     // which expected events must be delivered?
-    auto enabled_track = [&](int t) { if(c.track_solo >= 0) return t == c.track_solo; return t != c.track_off; };
+    auto enabled_track = [&](int t) { if(t == c.track_off) return false; if(c.track_solo >= 0) return t == c.track_solo; return true; };   // "disabled or non-solo tracks contribute no notes": both switches apply
     // notes started at the chips = off->on transitions of the key-on register (pitch updates re-write key-on for a channel that is already on)
     size_t keyons = 0; { std::map<int, bool> on; for(auto &w : I.tap.log) if(w.kind == 0 && w.reg == 0x28 && w.port == 0) { int id = w.chip * 8 + (w.val & 7); bool k = (w.val & 0xF0) != 0; if(k && !on[id]) keyons++; on[id] = k; } }
     size_t exp_keyons = 0;
@@ -302,8 +302,9 @@ int main(int argc, char **argv) {
             if(i % 50021 == 3) o.sample = song_str(s) + " mult " + std::to_string(mu) + " driver " + std::to_string(drv); check_c07(s, c, o); };
           fams.push_back(F); }
         { int n2 = 2; uint64_t per = seqs_upto(15, n2);
-          en::Family F; F.name = "two_tracks"; F.count = per * per * 2 * 6; F.chunk = 256; F.budget_s = 30; F.describe = "every format-1 file with 2 tracks of up to 2 events each over {noteOn, noteOff, cc7, text, tempo(track 0)/program} x delta {0,1,96}, one track ending with a lone End-of-Track; x masks {none, track 0 off, track 1 off, solo 0, solo 1, channel 1 off}";
+          en::Family F; F.name = "two_tracks"; F.count = per * per * 2 * 10; F.chunk = 256; F.budget_s = 30; F.describe = "every format-1 file with 2 tracks of up to 2 events each over {noteOn, noteOff, cc7, text, tempo(track 0)/program} x delta {0,1,96}, one track ending with a lone End-of-Track; x masks {none, track 0 off, track 1 off, solo 0, solo 1, channel 1 off, and the four combinations of one track off with one track solo}";
           F.run = [per](uint64_t i, en::CaseOut &o) { uint64_t f = i % (per * per * 2); int mask = (int)(i / (per * per * 2)); Song s = songN(f, 2, 2); Cfg c; if(mask == 1) c.track_off = 0; else if(mask == 2) c.track_off = 1; else if(mask == 3) c.track_solo = 0; else if(mask == 4) c.track_solo = 1; else if(mask == 5) c.chan_off = 1;
+            else if(mask >= 6) { c.track_off = (mask - 6) & 1; c.track_solo = ((mask - 6) >> 1) & 1; }   // off and solo together, on the same track or on different ones
             if(i % 40009 == 3) o.sample = song_str(s) + " mask " + std::to_string(mask); check_c07(s, c, o); };
           fams.push_back(F); }
         { uint64_t per = seqs_upto(15, 1);
